@@ -42,6 +42,15 @@ CLAIMS = {
          "(exhaustive), whole walks with scripted randint, Dataset-level wrappers judged in Coq.",
          "Trusted: Coq kernel + vm_compute; hand-written model; harness (randint patched as a module attribute); numpy boolean-mask updates as modelled; n>=1, m>=1.",
          "DESIGN.md section 4, C20"),
+ "C12": ("Coq theorems over a Gallina model of borda.py / unified_rankings (exact rational means) + vm_compute correspondence",
+         "Machine-checked for all datasets: the consensus is a partition of the universe into non-empty buckets, x before y iff "
+         "mean(x) < mean(y) and tied iff equal (means = sum/count over the rankings that rank the element); unification appends exactly the "
+         "missing elements as one last bucket so unranked elements score the size of the ranked part / next bucket index; the induced order "
+         "does not depend on the order of the rankings; refusal iff (incomplete and scheme not a positive multiple of the four families); "
+         "multiples accepted; complete data never refused. The library's consensus is compared with the model and re-judged against the "
+         "documented score definition inside Coq.",
+         "Trusted: Coq kernel + vm_compute; model; harness; float quotient comparison = exact rational comparison for the small integers involved.",
+         "DESIGN.md section 4, C12"),
 }
 NOT_YET = "check not built yet in this phase (planned: DESIGN.md section 4); no claim is made"
 
